@@ -263,16 +263,16 @@ def _judge(pts, results, verdicts):
                 "mode": pt["mode"],
                 "exc_msg": res["exc_msg"], "api": res["api"], "no_retry": res["no_retry"]}
         if hard != "ok":
-            # keep a few cases of EVERY distinct input class (never let one class crowd out another)
-            p = pt["p"]
-            key = (hard, p["route"], p["backend"], p["ctx"], p["reqs"], p["fp"], p["ah"], tuple(raw["exc"][:1]))
+            # keep a few cases of EVERY distinct class of (clause, input, observed facts) -- exactly the
+            # facts known-finding signatures are matched on -- so one class can never crowd out another
+            key = tuple(sorted((k, str(val)) for k, val in facts_of(hard, case).items()))
             kept[key] = kept.get(key, 0) + 1
             out["nbad"] += 1
             if kept[key] <= 2:
                 out["bad"].append((hard, case))
         elif drift != "ok" and len(out["drift"]) < 20:
             out["drift"].append((drift, case))
-        if drift != "ok":
+        if drift != "ok" and hard == "ok":
             out["ndrift"] += 1
         if len(out["samples"]) < 2 and pt["expect"] == "block":
             out["samples"].append({"point": pt["p"], "expect": pt["expect"], "demanded": pt["demanded"],
@@ -444,7 +444,7 @@ def run(rep):
     rep.extra["model_outcomes_of_replayed_points"] = tall["outcome"]
     rep.extra["real_outcomes"] = tall["real"]
     rep.extra["rejecting_component_predicted"] = tall["by"]
-    rep.extra["drift_total"] = ndrift
+    rep.extra["drift_only_traces"] = ndrift
     rep.extra["traces_with_failing_clause"] = sum(o["nbad"] for o in outs)
     rep.extra["points_emitted"] = emitted
     for c in CLASSES:
